@@ -27,12 +27,13 @@ Definition C01_convergence_full_statement
 
 (* (1) a `converged` status returned through an accepted trace of ANY line-search solver (gd, cgd-*, lbfgs, bfgs,
    dfp, sr1, hoshino, fletcher) means: the returned state is the exit snapshot of a done() call whose flag was true,
-   the state was valid there (finite fx, x, gx -- repo commit 3c2475d), and the flag is
-   gradient_test(snapshot) < epsilon recomputed from the snapshot's (gx, fx) in binary64 *)
+   the state was valid there (finite fx, x, gx -- repo commit 3c2475d), the flag is
+   gradient_test(snapshot) < epsilon recomputed from the snapshot's (gx, fx) in binary64, and the iteration that led to
+   that call had succeeded (iter_ok = true: repo commit 85997bc -- a failed line search never yields `converged`) *)
 Theorem C01_truthful : forall k eps evs r,
   accept k eps evs r = true -> is_ls k = true -> sstatus r = ST_CONVERGED ->
   exists e, In e evs /\ same_state r (ev_after e) = true /\ ev_conv e = true /\ valid (ev_s e) = true /\
-            PrimFloat.ltb (gradient_test (ev_s e)) eps = true.
+            PrimFloat.ltb (gradient_test (ev_s e)) eps = true /\ ev_iter_ok e = true.
 Proof. exact accept_truthful. Qed.
 Print Assumptions C01_truthful.
 
@@ -43,7 +44,7 @@ Theorem C01_convergence_partial : forall k eps evs r,
   (sstatus r = ST_MAX_ITERS \/ sstatus r = ST_CONVERGED \/ sstatus r = ST_FAILED) /\
   (sstatus r = ST_CONVERGED ->
      exists e, In e evs /\ same_state r (ev_after e) = true /\ ev_conv e = true /\ ev_ret e = true /\
-               valid (ev_s e) = true).
+               valid (ev_s e) = true /\ ev_iter_ok e = true).
 Proof.
   intros k eps evs r H. destruct (accept_status k eps evs r H) as (A & B & _). split; [exact A|exact B].
 Qed.
